@@ -626,7 +626,8 @@ pub fn explore_scalars(rep: &mut Report, quick: bool) {
             total.add("flagged_zero_states_extended", frontier.len() as u64);
         }
         // expand the frontier in parallel, then merge (deterministic order)
-        let results: Vec<(Stats, Vec<(Scalar4, Model, Vec<SOp>)>)> = {
+        #[allow(clippy::type_complexity)]
+        let results: Vec<(Stats, Vec<([(u8, i32, u64); 4], Option<(Scalar4, Model, Vec<SOp>)>)>)> = {
             use rayon::prelude::*;
             frontier
                 .par_iter()
@@ -642,7 +643,10 @@ pub fn explore_scalars(rep: &mut Report, quick: bool) {
                             Ok((s2, m2)) => {
                                 st.inc("cases");
                                 judge_scalar(&mut st, &s2, &m2, &p2);
-                                out.push((s2, m2, p2));
+                                // on the last regular level only the states that get the extra level keep their payload
+                                // (model and history); the others are only counted (16 M payloads exceeded the memory cap)
+                                let keep = level + 1 < depth || s2.raw_parts().iter().any(|c| c.2 == 0 && c.0 & 2 != 0);
+                                out.push((skey(&s2), if keep { Some((s2, m2, p2)) } else { None }));
                             }
                         }
                     }
@@ -653,14 +657,16 @@ pub fn explore_scalars(rep: &mut Report, quick: bool) {
         let mut next = vec![];
         for (st, out) in results {
             total = total.merge(st);
-            for (s2, m2, p2) in out {
+            for (k, payload) in out {
                 if seen.len() >= cap {
                     capped = true;
                     break;
                 }
-                if seen.insert(skey(&s2)) {
+                if seen.insert(k) {
                     total.inc("states");
-                    next.push((s2, m2, p2));
+                    if let Some(x) = payload {
+                        next.push(x);
+                    }
                 }
             }
         }
